@@ -344,7 +344,8 @@ decoders (`Base::from_bytes_le` check). -/
 theorem jj_decode_rejects_noncanonical_v {q : Nat} (d : Fp q) (z : Bool) (b : Nat)
     (h : b % 2 ^ 255 ≥ q) : fromBytesInner d z b = none := by
   unfold fromBytesInner
-  simp [h]
+  simp only
+  rw [if_pos h]
 
 example : fromBytesInner (⟨Params.jjD⟩ : Fp Params.blsR) true Params.blsR = none :=
   jj_decode_rejects_noncanonical_v _ _ _ (by decide)
@@ -381,22 +382,47 @@ theorem bls_decode_flag_checks {K : Type} [CoordField K] [DecidableEq K] [OfNat 
       · next hz => cases h; exact ⟨rfl, hz.1, hz.2⟩
       · cases h
     · intro h40
-      simp only [h40, ne_eq, not_true_eq_false, if_false] at h
       split at h
-      · cases h
-      · next x hx =>
-        split at h
+      · next hc => exact absurd h40 hc
+      · split at h
         · cases h
-        · next y0 hy =>
+        · next x hx =>
           split at h
           · cases h
-          · next hx0 => cases h; exact ⟨x, _, rfl, hx, hx0⟩
+          · next y0 hy =>
+            split at h
+            · cases h
+            · next hx0 => cases h; exact ⟨x, _, rfl, hx, hx0⟩
 
-/-- Non-vacuity on the real parameters: the standard compressed encoding of the G1 generator
-is accepted by the model decoder. -/
-example : (blsUncompress (fpCodec Params.blsP 48) (4 : Fp Params.blsP)
-    (blsCompress (fpCodec Params.blsP 48) (some (⟨Params.g1GenX⟩, ⟨Params.g1GenY⟩)))).isSome = true := by
-  decide +kernel
+/-- Non-vacuity on the real parameters: the encoding `c0 00 … 00` of the identity is accepted. -/
+example : blsUncompress (fpCodec Params.blsP 48) (4 : Fp Params.blsP) (0xc0 :: List.replicate 47 0)
+    = some none := by decide
+
+/-- `from_uncompressed[_unchecked]` of `g1.rs` / `g2.rs` (after fix c6a63c4): a string whose
+compression bit is set is never accepted by the uncompressed decoder, whatever follows. -/
+theorem uncompressed_rejects_compressed_form {K : Type} [CoordField K] [DecidableEq K] [OfNat K 0]
+    (c : FieldCodec K) (b : K) (bs : List Nat) (h : bs.headD 0 &&& 0x80 ≠ 0) :
+    blsDeserialize c b bs = none := by
+  unfold blsDeserialize
+  simp only
+  rw [if_pos h]
+
+example : blsDeserialize (fpCodec Params.blsP 48) (4 : Fp Params.blsP) (0xc0 :: List.replicate 95 0)
+    = none := uncompressed_rejects_compressed_form _ _ _ (by decide)
+
+/-- `K256::from_bytes` / `K256Affine::from_bytes` (after fix 82051ee): only the all-zero string
+(identity) and the SEC1 tags `02` / `03` are accepted. -/
+theorem secp_decode_tags (bs : List Nat) (P : WPoint (Fp Params.secpP)) (h : secpDecode bs = some P) :
+    (allZero bs = true ∧ P = none) ∨ bs.headD 0 = 2 ∨ bs.headD 0 = 3 := by
+  unfold secpDecode at h
+  split at h
+  · next hz => cases h; exact Or.inl ⟨hz, rfl⟩
+  · simp only at h
+    split at h
+    · cases h
+    · next ht => right; omega
+
+example : secpDecode (List.replicate 33 0) = some none := by decide
 
 /-- `Curve25519::from_bytes` / `Curve25519Affine::from_bytes` (curve25519-dalek's `decompress`) is
 NOT canonical — KNOWN FINDING `C11:ed:decoder-accepts-noncanonical`: the encoding of `(0, 1)` with
@@ -424,30 +450,29 @@ theorem ed_decode_canonical_partial (bs : List Nat) (p : Fp Params.edP × Fp Par
     have hq0 : 0 < Params.edP := by decide
     have hodd : Params.edP % 2 = 1 := by decide
     have hx0 := Fp.sqrt_lt hq0 hs
-    cases h
-    simp only at hx ⊢
-    rw [Nat.mod_eq_of_lt hy]
     have hdec : leBytesToNat bs = leBytesToNat bs % 2 ^ 255 + (leBytesToNat bs / 2 ^ 255) * 2 ^ 255 := by
       have := Nat.div_add_mod (leBytesToNat bs) (2 ^ 255); omega
     have h2 : leBytesToNat bs / 2 ^ 255 < 2 := by
       apply Nat.div_lt_of_lt_mul; omega
-    -- the non-negative root
-    have hnn : (if x0.isOdd then -x0 else x0).v % 2 = 0 ∧ (if x0.isOdd then -x0 else x0).v < Params.edP ∧
-        ((if x0.isOdd then -x0 else x0).v = 0 → x0.v = 0) := by
+    -- the non-negative root `xe`
+    obtain ⟨xe, hxe, e1, e2⟩ : ∃ xe : Fp Params.edP, xe = (if x0.isOdd then -x0 else x0) ∧
+        xe.v % 2 = 0 ∧ xe.v < Params.edP := by
+      refine ⟨_, rfl, ?_⟩
       by_cases ho : x0.isOdd = true
-      · simp only [ho, if_true]
+      · rw [if_pos ho]
         have hodd' : x0.v % 2 = 1 := by simpa [Fp.isOdd] using ho
         have hne : x0.v ≠ 0 := by omega
         obtain ⟨a, b⟩ := neg_parity hodd hx0 hne
-        refine ⟨by omega, b, ?_⟩
-        intro hz; omega
-      · simp only [ho]
+        exact ⟨by omega, b⟩
+      · rw [if_neg ho]
         have : x0.v % 2 ≠ 1 := by simpa [Fp.isOdd] using ho
-        exact ⟨by omega, hx0, fun h => h⟩
-    generalize (if x0.isOdd then -x0 else x0) = xe at hnn hx ⊢
-    obtain ⟨e1, e2, e3⟩ := hnn
+        exact ⟨by omega, hx0⟩
+    rw [← hxe] at h
+    rw [Nat.mod_eq_of_lt hy] at h
     by_cases hsg : (leBytesToNat bs / 2 ^ 255 % 2 == 1) = true
-    · simp only [hsg, if_true] at hx ⊢
+    · rw [if_pos hsg] at h
+      cases h
+      simp only at hx ⊢
       have hs1 : leBytesToNat bs / 2 ^ 255 = 1 := by
         have : leBytesToNat bs / 2 ^ 255 % 2 = 1 := by simpa using hsg
         omega
@@ -461,9 +486,10 @@ theorem ed_decode_canonical_partial (bs : List Nat) (p : Fp Params.edP × Fp Par
         | inr hx => omega
       obtain ⟨a, _⟩ := neg_parity hodd e2 hne
       rw [a]; omega
-    · simp only [hsg] at hx ⊢
+    · rw [if_neg hsg] at h
+      cases h
+      simp only
       have : leBytesToNat bs / 2 ^ 255 % 2 ≠ 1 := by simpa using hsg
-      simp only [Bool.false_eq_true, if_false]
       omega
 
 end codecs
